@@ -23,6 +23,18 @@ func caseFrom(e *descgen.Entry) *pipeline.Case {
 
 // generate prepares and pushes all cases through both plugins (16 in parallel).
 func (r *Run) generate(cases []*pipeline.Case) {
+	if only := os.Getenv("VERIF_ONLY"); only != "" {
+		// debugging aid: restrict the run to the named cases (others are marked as not written)
+		keep := map[string]bool{}
+		for _, n := range strings.Split(only, ",") {
+			keep[n] = true
+		}
+		for _, c := range cases {
+			if !keep[c.Name] {
+				c.NoWrite = true
+			}
+		}
+	}
 	for _, c := range cases {
 		r.WS.Prepare(c)
 	}
